@@ -32,6 +32,10 @@ type Scenario struct {
 	Check func(o *vx.Outcome) []Finding
 	// Observation returns extra canonical text that distinguishes outcomes (optional).
 	Observation func(o *vx.Outcome) string
+	// StepCapIsLivelock: an execution that reaches Opt.MaxSteps is handed to Check like a complete one (Kind
+	// "step-cap"): for scenarios whose property is "this always finishes", with MaxSteps far above what any
+	// finishing execution takes, a spin loop (polling with a yield inside) is a violation, not a cap.
+	StepCapIsLivelock bool
 }
 
 type Budget struct{ K, E int } // -1 = unbounded
@@ -251,7 +255,7 @@ func Explore(sc *Scenario, variant int, b Budget, cfg Config) *Result {
 			res.Pruned++
 			continue
 		}
-		if o.Kind == "step-cap" {
+		if o.Kind == "step-cap" && !sc.StepCapIsLivelock {
 			res.StepCaps++
 			res.Exhaustive = false
 			continue
